@@ -112,6 +112,8 @@ def prepare(case):
     pm = fm.permute_gen(g, perm, corder)
     case["pm"] = pm
     case["D"] = fm.choose_D(pm)
+    if case.get("half_grid") and not any(fm.has_op(e, {2, 76, 77}) for e in fm.model_exprs(pm)):
+        case["D"] = 2          # candidate points on the half-integer grid (no products in the model)
     case["model"] = fm.gen_to_nlgen(pm)
     return case
 
